@@ -318,6 +318,9 @@ func c07Codec(c *Ctx, r *gen.R, stream string) error {
 	if stream == "annot" {
 		n, per = c.N(8, 48), c.N(8, 30)
 		mk = func(i int) *ir.Request {
+			if i == 0 {
+				return gen.GenShapeZoo(i) // fixed shapes the random generators rarely draw
+			}
 			f := gen.GenAnnotFile(r.Fork(fmt.Sprint("C07-", i)), i, gen.AnnotOpts{Safe: true})
 			return &ir.Request{Files: []*ir.File{f}, Generate: []string{f.Name}}
 		}
@@ -743,6 +746,9 @@ func genTSServerFile(r *gen.R, idx int) *ir.Request {
 				fl := &ir.Field{Name: fn, Number: no, Kind: k, Ann: ir.Ann{Query: qa}}
 				if k == "enum" {
 					fl.TypeName = P + "Color"
+				}
+				if strings.HasSuffix(k, "64") && r.P(1, 2) {
+					fl.Ann.Int64Enc = "NUMBER" // declared `number`: the query conversion must follow the annotation
 				}
 				in.Fields = append(in.Fields, fl)
 				no++
